@@ -135,6 +135,10 @@ void expect_exact(int k, const char* where) {
       any = true;
     }
   if (is_ext(S->subject)) {
+    // the only recorded extreme equals the numeric limit the implementation uses
+    // as its "nothing recorded" sentinel: reported under its own site
+    bool sentinel_case = any && ext == (S->subject == S_MAXER ? std::numeric_limits<ssize_t>::min() : std::numeric_limits<ssize_t>::max());
+    if (sentinel_case && !r.has) fail("lost", "extreme-equals-sentinel", "%s #%d: value(T&) returned false although %llu values were recorded in the current period, all equal to the numeric limit %lld", S->subject == S_MAXER ? "maxer" : "miner", k, (unsigned long long)num, (long long)ext);
     if (r.has != any) fail(any ? "lost" : "stale", where, "%s #%d: value(T&) returned %s although %llu values were recorded in the current period", S->subject == S_MAXER ? "maxer" : "miner", k, r.has ? "true" : "false", (unsigned long long)num);
     if (any && r.sum != ext) fail(any && (S->subject == S_MAXER ? r.sum > ext : r.sum < ext) ? "stale" : "lost", where, "%s #%d reports %lld, the extreme of the current period is %lld", S->subject == S_MAXER ? "maxer" : "miner", k, (long long)r.sum, (long long)ext);
     ssize_t v0 = with(S->subject, I.obj, [](auto* o) -> ssize_t { if constexpr (std::is_same_v<decltype(o), Maxer*> || std::is_same_v<decltype(o), Miner*>) return o->value(); else return 0; });
@@ -316,7 +320,7 @@ void worker_value(int k) {
     if (overlapped) probe("read_overlapped_writer");
     if (!r.has && any_lo) fail("lost", "concurrent-read", "%s #%d reported no value although a value was recorded before the read began", max ? "maxer" : "miner", k);
     if (r.has && (!any_hi || !member || (max ? r.sum > hi : r.sum < hi) || (any_lo && (max ? r.sum < lo : r.sum > lo))))
-      fail("stale", "concurrent-read", "%s #%d concurrently read %lld, which is not an extreme of any prefix of this period's values (completed before: %s%lld, started before the read ended: %s%lld)", max ? "maxer" : "miner", k, (long long)r.sum, any_lo ? "" : "none/", (long long)lo, any_hi ? "" : "none/", (long long)hi);
+      fail("stale", "extreme-concurrent-read", "%s #%d concurrently read %lld, which is not an extreme of any prefix of this period's values (completed before: %s%lld, started before the read ended: %s%lld)", max ? "maxer" : "miner", k, (long long)r.sum, any_lo ? "" : "none/", (long long)lo, any_hi ? "" : "none/", (long long)hi);
     return;
   }
   std::set<std::pair<int64_t, uint64_t>> reach{{0, 0}};
